@@ -154,6 +154,8 @@ type Graph struct {
 	idom  []int
 	order []int // reverse postorder numbering
 	rpo   []int
+
+	factMemo map[int][]Fact
 }
 
 func NewGraph(f *ssa.Function, nr *NoRet) *Graph {
@@ -320,33 +322,227 @@ type Fact struct {
 // for every ancestor pair (c, idom c) in the pruned dominator tree where c is a
 // successor of idom(c) with no other predecessor, the condition of idom(c)'s If.
 // Negations are unfolded, so Cond is never a '!' operation.
+//
+// Facts about a phi are then unfolded: when a fact says that a phi is nil,
+// non-nil, true or false, the last entry into the phi's block came through an
+// edge whose incoming value is compatible with that, so every fact common to
+// those edges holds as well ("x, err := h(); if err != nil {...}" after h was
+// merged into the caller, or a flag computed on several branches).
 func (g *Graph) FactsAt(b int) []Fact {
+	if g.factMemo == nil {
+		g.factMemo = map[int][]Fact{}
+	}
+	if f, ok := g.factMemo[b]; ok {
+		return append([]Fact(nil), f...)
+	}
+	f := g.factsAt(b, map[int]bool{})
+	g.factMemo[b] = f
+	return append([]Fact(nil), f...)
+}
+
+func (g *Graph) baseFacts(b int) []Fact {
 	var out []Fact
 	for c := b; c != 0 && g.Reach[c]; c = g.idom[c] {
 		d := g.idom[c]
 		if len(g.Preds[c]) != 1 || g.Preds[c][0] != d {
 			continue
 		}
-		blk := g.Fn.Blocks[d]
-		ifi, ok := blk.Instrs[len(blk.Instrs)-1].(*ssa.If)
+		if f, ok := g.edgeFact(d, c); ok {
+			out = append(out, f)
+		}
+	}
+	return out
+}
+
+// edgeFact is the branch condition on the edge d -> c, if d ends in a two-way branch.
+func (g *Graph) edgeFact(d, c int) (Fact, bool) {
+	blk := g.Fn.Blocks[d]
+	ifi, ok := blk.Instrs[len(blk.Instrs)-1].(*ssa.If)
+	if !ok || blk.Succs[0] == blk.Succs[1] || g.Cut[d] >= 0 {
+		return Fact{}, false
+	}
+	val := blk.Succs[0].Index == c
+	cond := ifi.Cond
+	for {
+		u, ok := cond.(*ssa.UnOp)
+		if !ok || u.Op != token.NOT {
+			break
+		}
+		cond, val = u.X, !val
+	}
+	return Fact{cond, val, ifi}, true
+}
+
+// EdgeFacts returns the facts that hold when control flows from block p to its successor s.
+func (g *Graph) EdgeFacts(p, s int) []Fact {
+	out := g.FactsAt(p)
+	if f, ok := g.edgeFact(p, s); ok {
+		out = append(out, f)
+	}
+	return out
+}
+
+type valClass int
+
+const (
+	clsUnknown valClass = iota
+	clsNil
+	clsNonNil
+	clsTrue
+	clsFalse
+)
+
+// NonNil reports whether v is a value that is never nil: an address, a fresh
+// object, a value boxed in an interface, or the result of errors.New / fmt.Errorf.
+func NonNil(v ssa.Value) bool {
+	switch x := v.(type) {
+	case *ssa.MakeInterface, *ssa.Alloc, *ssa.MakeClosure, *ssa.MakeMap, *ssa.MakeChan, *ssa.MakeSlice, *ssa.FieldAddr, *ssa.IndexAddr, *ssa.Function, *ssa.Global:
+		return true
+	case *ssa.ChangeInterface:
+		return NonNil(x.X)
+	case *ssa.Call:
+		switch CalleeName(&x.Call) {
+		case "errors.New", "fmt.Errorf":
+			return true
+		}
+	}
+	return false
+}
+
+func classify(v ssa.Value, facts []Fact) valClass {
+	if c, ok := v.(*ssa.Const); ok {
+		if c.IsNil() {
+			return clsNil
+		}
+		if bv, ok := ConstBool(c); ok {
+			if bv {
+				return clsTrue
+			}
+			return clsFalse
+		}
+		return clsUnknown
+	}
+	if NonNil(v) {
+		return clsNonNil
+	}
+	if KnownNil(facts, v, false) {
+		return clsNonNil
+	}
+	if KnownNil(facts, v, true) {
+		return clsNil
+	}
+	for _, f := range facts {
+		if f.Cond == v {
+			if f.Val {
+				return clsTrue
+			}
+			return clsFalse
+		}
+	}
+	return clsUnknown
+}
+
+// phiTest recognises a fact about a phi: the phi itself (boolean) or a
+// comparison of the phi with nil.
+func phiTest(f Fact) (*ssa.Phi, valClass, bool) {
+	if p, ok := f.Cond.(*ssa.Phi); ok {
+		if f.Val {
+			return p, clsTrue, true
+		}
+		return p, clsFalse, true
+	}
+	if x, eq, ok := NilCheck(f.Cond); ok {
+		if p, ok := x.(*ssa.Phi); ok {
+			if eq == f.Val {
+				return p, clsNil, true
+			}
+			return p, clsNonNil, true
+		}
+	}
+	return nil, clsUnknown, false
+}
+
+func (g *Graph) factsAt(b int, busy map[int]bool) []Fact {
+	out := g.baseFacts(b)
+	if busy[b] {
+		return out
+	}
+	busy[b] = true
+	defer delete(busy, b)
+	have := map[[2]any]bool{}
+	for _, f := range out {
+		have[[2]any{f.Cond, f.Val}] = true
+	}
+	for i := 0; i < len(out) && i < 64; i++ {
+		phi, want, ok := phiTest(out[i])
 		if !ok {
 			continue
 		}
-		if blk.Succs[0] == blk.Succs[1] {
-			continue
-		}
-		val := blk.Succs[0].Index == c
-		cond := ifi.Cond
-		for {
-			u, ok := cond.(*ssa.UnOp)
-			if !ok || u.Op != token.NOT {
-				break
+		pb := phi.Block().Index
+		var common []Fact
+		first := true
+		var only ssa.Value
+		nCompat := 0
+		for k, e := range phi.Edges {
+			pred := phi.Block().Preds[k].Index
+			if !g.Reach[pred] || g.Cut[pred] >= 0 || !containsInt(g.Succs[pred], pb) {
+				continue
 			}
-			cond, val = u.X, !val
+			pf := g.factsAt(pred, busy)
+			if ef, ok := g.edgeFact(pred, pb); ok {
+				pf = append(pf, ef)
+			}
+			if cls := classify(e, pf); cls != clsUnknown && cls != want {
+				continue
+			}
+			nCompat++
+			only = e
+			if first {
+				common, first = pf, false
+				continue
+			}
+			var keep []Fact
+			for _, a := range common {
+				for _, c := range pf {
+					if a.Cond == c.Cond && a.Val == c.Val {
+						keep = append(keep, a)
+						break
+					}
+				}
+			}
+			common = keep
 		}
-		out = append(out, Fact{cond, val, ifi})
+		// a single compatible edge also fixes the value that arrived through it
+		if nCompat == 1 && (want == clsTrue || want == clsFalse) {
+			if _, isConst := only.(*ssa.Const); !isConst {
+				cond, val := only, want == clsTrue
+				for {
+					u, ok := cond.(*ssa.UnOp)
+					if !ok || u.Op != token.NOT {
+						break
+					}
+					cond, val = u.X, !val
+				}
+				common = append(common, Fact{cond, val, out[i].If})
+			}
+		}
+		for _, f := range common {
+			if !have[[2]any{f.Cond, f.Val}] {
+				have[[2]any{f.Cond, f.Val}] = true
+				out = append(out, f)
+			}
+		}
 	}
 	return out
+}
+
+func containsInt(s []int, x int) bool {
+	for _, v := range s {
+		if v == x {
+			return true
+		}
+	}
+	return false
 }
 
 // FactsAtInstr is FactsAt for the block of an instruction.
@@ -378,7 +574,54 @@ const (
 
 func (g *Graph) Walk(start Point, visit func(i ssa.Instruction, trail []int) Action, atExit func(last ssa.Instruction, trail []int)) {
 	seen := map[int]bool{}
+	seenFrom := map[[2]int]bool{}
 	var run func(b, from int, trail []int)
+	// phiRun continues into phi-branch block s from predecessor p: the branch
+	// is followed only in the direction the value arriving from p decides.
+	var phiRun func(s, p int, trail []int)
+	phiRun = func(s, p int, trail []int) {
+		if seenFrom[[2]int{p, s}] {
+			return
+		}
+		seenFrom[[2]int{p, s}] = true
+		phi, _ := g.phiBranch(s)
+		blk := g.Fn.Blocks[s]
+		var incoming ssa.Value
+		for k, pr := range blk.Preds {
+			if pr.Index == p {
+				incoming = phi.Edges[k]
+			}
+		}
+		allowed := g.Succs[s]
+		if incoming != nil {
+			if cls := classify(incoming, g.EdgeFacts(p, s)); cls != clsUnknown {
+				var keep []int
+				for _, t := range g.Succs[s] {
+					f, _ := g.edgeFact(s, t)
+					if _, want, _ := phiTest(f); want == cls {
+						keep = append(keep, t)
+					}
+				}
+				allowed = keep
+			}
+		}
+		trail = append(append([]int{}, trail...), s)
+		for _, i := range blk.Instrs {
+			if visit(i, trail) == Stop {
+				return
+			}
+		}
+		for _, t := range allowed {
+			if g.PhiBranch(t) {
+				phiRun(t, s, trail)
+				continue
+			}
+			if !seen[t] {
+				seen[t] = true
+				run(t, 0, trail)
+			}
+		}
+	}
 	run = func(b, from int, trail []int) {
 		trail = append(append([]int{}, trail...), b)
 		blk := g.Fn.Blocks[b]
@@ -398,6 +641,12 @@ func (g *Graph) Walk(start Point, visit func(i ssa.Instruction, trail []int) Act
 			return
 		}
 		for _, s := range g.Succs[b] {
+			// a block branching on one of its own phis is entered once per
+			// predecessor, and left only through the branch that predecessor decides
+			if g.PhiBranch(s) {
+				phiRun(s, b, trail)
+				continue
+			}
 			if !seen[s] {
 				seen[s] = true
 				run(s, 0, trail)
@@ -408,6 +657,43 @@ func (g *Graph) Walk(start Point, visit func(i ssa.Instruction, trail []int) Act
 		return
 	}
 	run(start.Block, start.Index, nil)
+}
+
+// PhiBranch reports whether block b consists of phis and pure value
+// computations only and ends in a branch that tests one of those phis (directly
+// or against nil).
+func (g *Graph) PhiBranch(b int) bool {
+	_, ok := g.phiBranch(b)
+	return ok
+}
+
+func (g *Graph) phiBranch(b int) (*ssa.Phi, bool) {
+	if !g.Reach[b] || g.Cut[b] >= 0 || len(g.Succs[b]) != 2 {
+		return nil, false
+	}
+	blk := g.Fn.Blocks[b]
+	if _, ok := blk.Instrs[len(blk.Instrs)-1].(*ssa.If); !ok {
+		return nil, false
+	}
+	for _, i := range blk.Instrs[:len(blk.Instrs)-1] {
+		switch i.(type) {
+		case *ssa.Phi, *ssa.BinOp, *ssa.UnOp, *ssa.DebugRef, *ssa.Extract:
+			if u, isU := i.(*ssa.UnOp); isU && u.Op != token.NOT {
+				return nil, false
+			}
+		default:
+			return nil, false
+		}
+	}
+	f, ok := g.edgeFact(b, g.Succs[b][0])
+	if !ok {
+		return nil, false
+	}
+	phi, _, ok := phiTest(f)
+	if !ok || phi.Block() != blk {
+		return nil, false
+	}
+	return phi, true
 }
 
 // Exit describes how a path left the function.
